@@ -254,13 +254,14 @@ def storage_step(ctx, lmax, top=None):
                 if opname == "append":
                     want = z3.BoolVal(shape == "appended") if shape != "appended" else (idx == L)
                 else:
-                    nohit = z3.And(*[z3.Not(a) for a in atoms]) if atoms else z3.BoolVal(True)
-                    cases = [z3.And(nohit, z3.BoolVal(shape == "appended"), idx == L)]
-                    before = []
-                    for i, a in enumerate(atoms):
-                        cases.append(z3.And(*(before + [a, z3.BoolVal(shape == "unchanged"), idx == i])))
-                        before.append(z3.Not(a))
-                    want = z3.Or(*cases)
+                    # prefix[i] = "none of the first i values equals the argument", as a chain of shared sub-terms (linear size)
+                    prefix = [z3.BoolVal(True)]
+                    for a in atoms:
+                        prefix.append(z3.And(prefix[-1], z3.Not(a)))
+                    cases = [z3.And(prefix[L], idx == L)] if shape == "appended" else []
+                    if shape == "unchanged":
+                        cases += [z3.And(prefix[i], a, idx == i) for i, a in enumerate(atoms)]
+                    want = z3.Or(*cases) if cases else z3.BoolVal(False)
                 covered.append(pc)
                 rr = q.check([pc, z3.Not(want)], "path-post")
                 if rr[0] == "unknown":
@@ -338,7 +339,7 @@ def confirm(ctx, tag, opname, eqs, what, lookup=None):
 def run(ctx):
     n = 4 if ctx.tier == "quick" else 6
     lmax = 24 if ctx.tier == "quick" else 64
-    top = 256 if ctx.tier == "quick" else 1024
+    top = 256 if ctx.tier == "quick" else 512
     hs = ["k_storage_u8_%d" % n, "k_storage_odd_%d" % n, "k_storage_keyed_%d" % n, "k_storage_cross_%d" % min(n, 5)]
     if n > 5:
         hs.append("k_storage_cross_%d" % n)   # optional: exhausts CBMC's memory (14 GB) on this machine; histories of 5 are the required verdict
